@@ -178,6 +178,13 @@ def r07_1(ctx, rep):
                         tag[t] = (src[0], 1)
                     elif src[1] == 1 and renamed(v, v.args[1].id):
                         tag[t] = (src[0], 2)
+                elif isinstance(v, ast.Call) and len(v.args) >= 3 and isinstance(v.args[1], ast.Call) and len(v.args[1].args) >= 2 \
+                        and isinstance(v.args[1].args[1], ast.Name) and v.args[1].args[1].id in tag and tag[v.args[1].args[1].id][1] == 0:
+                    # both stages in one expression: flatten_component_refs(flat, fully_scope_function_calls(cls, e, ..), prefix)
+                    e0 = v.args[1].args[1].id
+                    outer = ast.Call(func=v.func, args=[v.args[0], ast.Name(id=e0, ctx=ast.Load()), v.args[2]], keywords=[])
+                    if scoped(v.args[1], e0) and renamed(outer, e0):
+                        tag[t] = (tag[e0][0], 2)
                 elif isinstance(v, ast.ListComp) and len(v.generators) == 1 and not v.generators[0].ifs and isinstance(v.generators[0].target, ast.Name):
                     g = v.generators[0]
                     e = g.target.id
